@@ -32,7 +32,30 @@ pub enum Op {
     /// (called with the effective uid of `nobody`): open and stat succeed, the validating touch is
     /// refused, the call fails and must leave nothing behind
     AddOtherRefused,
+    /// the thread also uses a private `AtomicBaseTime` of its own (a public type): it updates it three
+    /// times with far-future pairs and snapshots it after each, asking the module for its base time
+    /// in between.  Nothing read from the private cell may leak into the module's base time.
+    OtherCell,
 }
+pub const OPS_ALL: [Op; 17] = [
+    Op::AddTrusted,
+    Op::ObserveTOld,
+    Op::ObserveTNew,
+    Op::ObserveUNew,
+    Op::MaybeObserveTNew,
+    Op::MaybeObserveUNew,
+    Op::Scan,
+    Op::GetNow,
+    Op::GetFresh,
+    Op::GetStale,
+    Op::GetUnlocked,
+    Op::Sleep,
+    Op::TouchTOld,
+    Op::RetargetTrustedPath,
+    Op::AddTrustedOther,
+    Op::AddOtherRefused,
+    Op::OtherCell,
+];
 pub const OPS: [Op; 16] = [
     Op::AddTrusted,
     Op::ObserveTOld,
@@ -62,7 +85,7 @@ pub fn parse(text: &str) -> Option<Vec<Op>> {
         if tok.trim().is_empty() {
             continue;
         }
-        v.push(OPS.iter().copied().find(|o| format!("{:?}", o) == tok.trim())?);
+        v.push(OPS_ALL.iter().copied().find(|o| format!("{:?}", o) == tok.trim())?);
     }
     Some(v)
 }
@@ -262,6 +285,21 @@ pub fn child(env: &Env, history: &[Op]) -> Result<(), String> {
             Op::TouchTOld => {
                 let f = std::fs::File::options().write(true).open(env.t_old()).map_err(|e| e.to_string())?;
                 f.set_times(std::fs::FileTimes::new().set_accessed(std::time::SystemTime::now())).map_err(|e| e.to_string())?;
+            }
+            Op::OtherCell => {
+                let cell = vouched_time::AtomicBaseTime::new();
+                for s in 1..=3u64 {
+                    let t = 4_102_444_800_000 + s; // 2100-01-01: far ahead of every change-time
+                    cell.update((t, crate::window::VOUCH.vouch(t)));
+                    let (got, v) = cell.snapshot();
+                    if got != t || check_pair(got, v).is_err() {
+                        return Err(format!("{}: a private AtomicBaseTime updated to {} reads {}", step, t, got));
+                    }
+                    let b = unlocked().map_err(|e| format!("{}: {}", step, e))?;
+                    if b != base {
+                        return Err(format!("{}: right after this thread read its own private AtomicBaseTime (update #{}, far-future value), get_base_time_unlocked returned {} but the module's base time is {}", step, s, if b == t { "that private value".to_string() } else { b.to_string() }, base));
+                    }
+                }
             }
             Op::RetargetTrustedPath => {
                 let _ = std::fs::remove_file(env.p_t());
@@ -472,7 +510,7 @@ pub fn run(ctx: &Ctx) -> Report {
     rec(ctx, &mut rep, &tag, &mut history, depth, &mut unit, &OPS, 0);
     // Non-initial start: a device is already trusted, then every sequence of observations (the ops
     // whose answer may depend on what was observed before) one level deeper than the full alphabet allows.
-    let observing = [Op::ObserveTOld, Op::ObserveTNew, Op::ObserveUNew, Op::MaybeObserveTNew, Op::MaybeObserveUNew, Op::GetUnlocked, Op::TouchTOld, Op::AddOtherRefused];
+    let observing = [Op::ObserveTOld, Op::ObserveTNew, Op::ObserveUNew, Op::MaybeObserveTNew, Op::MaybeObserveUNew, Op::GetUnlocked, Op::TouchTOld, Op::AddOtherRefused, Op::OtherCell];
     let mut history = vec![Op::AddTrusted];
     rec(ctx, &mut rep, &tag, &mut history, depth, &mut unit, &observing, 1);
     rep.note(format!("C19: after add_trusted_path, all sequences over the {} observing ops {:?} to depth {}", observing.len(), observing, depth));
